@@ -211,7 +211,65 @@ func checkC10(c *Check) {
 					}
 				}
 			}
-			r3.Decide(foundCall && callOK, "compiler.(*compiler).VisitImportStmt|init call on a miss", cb.Pos(), "module_init is called only after the importedModules miss", "the module_init call is not dominated by a miss in importedModules: a module reachable over two import paths is initialised twice (or never)")
+			deferredOK, deferredWhy := false, ""
+			if !foundCall {
+				// the call may be emitted after the traversal, from a slice that the callback fills on a miss: accepted when the slice is
+				// only appended to under the miss and is iterated in the order it was filled (nothing sorts or otherwise reorders it)
+				var sliceObj types.Object
+				for _, b := range g.Blocks {
+					for i, n := range b.Nodes {
+						if as, ok := n.(*ast.AssignStmt); ok && len(as.Lhs) == 1 && len(as.Rhs) == 1 {
+							if call, ok := as.Rhs[0].(*ast.CallExpr); ok {
+								if id, ok := call.Fun.(*ast.Ident); ok && id.Name == "append" && len(call.Args) == 2 && mf.StateAt(b, i)&1 != 0 {
+									if lid, ok := as.Lhs[0].(*ast.Ident); ok {
+										sliceObj = info.Uses[lid]
+									}
+								}
+							}
+						}
+					}
+				}
+				if sliceObj != nil {
+					ranged, reordered := false, ""
+					ast.Inspect(fi.Decl.Body, func(n ast.Node) bool {
+						switch x := n.(type) {
+						case *ast.RangeStmt:
+							if id, ok := ast.Unparen(x.X).(*ast.Ident); ok && info.Uses[id] == sliceObj {
+								ast.Inspect(x.Body, func(m ast.Node) bool {
+									if call, ok := m.(*ast.CallExpr); ok {
+										if fn := Callee(info, call); fn != nil && fn.Name() == "NewCall" && len(call.Args) >= 1 && strings.Contains(L.Src(call.Args[0]), "module_init") {
+											ranged = true
+										}
+									}
+									return true
+								})
+							}
+						case *ast.CallExpr:
+							if fn := Callee(info, x); fn != nil && fn.Pkg() != nil && (fn.Pkg().Path() == "sort" || fn.Pkg().Path() == "slices") && strings.Contains(strings.ToLower(fn.Name()), "sort") || (fn != nil && fn.Name() == "Reverse") {
+								for _, a := range x.Args {
+									if id, ok := ast.Unparen(a).(*ast.Ident); ok && info.Uses[id] == sliceObj {
+										reordered = fn.Name()
+									}
+								}
+							}
+						}
+						return true
+					})
+					foundCall = ranged
+					if ranged && reordered == "" {
+						deferredOK = true
+					} else if ranged {
+						deferredWhy = "the modules collected in dependencies-first order are reordered (" + reordered + ") before their module_init calls are emitted: a module can be initialised before a module it imports, so its initialisers read default values"
+					}
+				}
+			}
+			if deferredWhy != "" {
+				r3.Bad("compiler.(*compiler).VisitImportStmt|init call on a miss", cb.Pos(), deferredWhy)
+			} else if deferredOK {
+				r3.OK("compiler.(*compiler).VisitImportStmt|init call on a miss", cb.Pos(), "modules missed in importedModules are collected in traversal order and their module_init calls emitted in that order")
+			} else {
+				r3.Decide(foundCall && callOK, "compiler.(*compiler).VisitImportStmt|init call on a miss", cb.Pos(), "module_init is called only after the importedModules miss", "the module_init call is not dominated by a miss in importedModules: a module reachable over two import paths is initialised twice (or never)")
+			}
 			r3.Decide(recorded, "compiler.(*compiler).VisitImportStmt|module recorded", cb.Pos(), "the module is entered into importedModules after its init call was emitted", "the module is not recorded in importedModules after the miss: it is initialised again by the next import that reaches it")
 		}
 	} else {
